@@ -332,15 +332,16 @@ func init() {
 	register(&Prop{
 		ID:       "C05",
 		Imports:  "From Tab Require Import Run.Glue Run.C05Run.",
-		CaseType: "(view * res (list N))",
-		CaseFn:   "C05_case",
-		ModelFn:  "C05_model",
+		CaseType: "c05session",
+		CaseFn:   "C05s_case",
+		ModelFn:  "C05s_model",
 		Rule: "tables built through the public API (AddHeaders / AddRowItems / NewRow+Add+AddRow / AppendNewRow+Add / AddSeparator); " +
 			"every shape with header in {none,0,1,2 cells} and up to 3 rows over {separator,0,1,2 cells} (texts from a quote/comma/CR/LF/NUL/0xFF alphabet), " +
 			"every single field over all strings of length <= 2 of a 7-byte alphabet in first/last/padded position, and random tables to 6x6 over all 256 byte values; " +
 			"records of 509 B .. 8 KiB (thorough: to 70 KB) before, between and after small ones, fields of 15..257 quote characters (alone and after a longer plain field), 700 small records, tables of 9..47 columns; a render-time callback that renders the same wrapper again (enrichSpec: Reenter); " +
-			"a case is non-trivial when the table has at least one column (rendering is attempted); distinct = distinct (view, outcome)",
-		Exhaustive: "shapes (header x row-sequence up to length 3) and all 57 strings of length<=2 over 7 hostile bytes in 3 field positions",
+			"SESSIONS (one render after another, every render judged against the table as the spec says it stood then): histories over 2..4 tables (tabular.New / csv.New / a Table stating its own column count) of AddHeaders, AddRowItems, AddSeparator, a row taken by a second table and extended afterwards (one table then holds a row longer than its column count: its render is refused PART-WAY, after the records before it), tables widened until they render again, a failing writer in between, with renders through csv.Render, Wrap(t).Render, one kept wrapper's Render, csv.RenderTo into a fresh buffer, RenderTo into a plain writer and into one buffer the caller reuses; exhaustively: refusal before any record / after the header / after 1, 2, 3 records x 6 entry points for the refused render x 6 for the next render (of an unrelated table - every other time after a render into a failing writer - then of the same table once it is wide enough), and the same with a table stating a column count smaller than one of its rows over the 3 x 3 string-returning entry points; refused renders that have written 40 B .. 5 KB (thorough: 70 KB) before small and large successful ones; " +
+			"a case is non-trivial when the table has at least one column (rendering is attempted); distinct = distinct (views, outcomes)",
+		Exhaustive: "shapes (header x row-sequence up to length 3) and all 57 strings of length<=2 over 7 hostile bytes in 3 field positions; sessions: {no header, header} x {0,1,2 fitting rows before the over-long one} x 6 entry points of the refused render x 6 entry points of the following renders (row shared with a second table and extended), x 3 x 3 string-returning entry points (table stating its own column count)",
 		Gen: func(r *RNG, tier string) []json.RawMessage {
 			var out []json.RawMessage
 			add := func(ts TableSpec) { out = append(out, mustJSON(ts)) }
@@ -423,19 +424,22 @@ func init() {
 				enrichSpec(r, &ts, csvText)
 				add(ts)
 			}
+			// sessions come last: one render after another, over several tables
+			out = append(out, genC05Sessions(r, tier, csvText)...)
 			return out
 		},
 		Run: func(spec json.RawMessage) CaseOut {
-			var ts TableSpec
-			if err := json.Unmarshal(spec, &ts); err != nil {
-				panic(err)
+			ss, tsp := parseC05Spec(spec)
+			if ss != nil {
+				return runC05Session(*ss)
 			}
+			ts := *tsp
 			t := tabular.New()
 			o := ts.BuildRenderW(t, func(t tabular.Table) RenderW { return csv.Wrap(t) })
 			v := ts.SpecView() // what was put in; extractView(t) would be what the table now holds
 			vc := v.Coq(true)
 			return CaseOut{
-				Coq:        cqPair(vc, o.Coq()),
+				Coq:        cqPair(cqList([]string{vc}), cqList([]string{cqPair(cqNat(0), o.Coq())})), // a session of one render
 				Desc:       o,
 				Size:       ts.Size(),
 				Tags:       append(shapeTags(v), "outcome="+o.Kind),
@@ -443,6 +447,15 @@ func init() {
 				Nontrivial: v.NCols > 0,
 			}
 		},
-		Shrink: shrinkTableJSON,
+		Shrink: func(spec json.RawMessage) []json.RawMessage {
+			if ss, _ := parseC05Spec(spec); ss != nil {
+				var out []json.RawMessage
+				for _, c := range shrinkC05Session(*ss) {
+					out = append(out, mustJSON(c))
+				}
+				return out
+			}
+			return shrinkTableJSON(spec)
+		},
 	})
 }
